@@ -184,10 +184,7 @@ func (r *nodeReconcile) Reconcile(ctx context.Context, request reconcile.Request
 		Count:                       secondary,
 	})
 
-	node.Spec.Pool = &networkv1beta1.PoolSpec{
-		MaxPoolSize: eniConfig.MaxPoolSize,
-		MinPoolSize: eniConfig.MinPoolSize,
-	}
+	node.Spec.Pool = poolSpec(eniConfig, node)
 
 	afterStatus, err := runtime.DefaultUnstructuredConverter.ToUnstructured(node.DeepCopy())
 	if err != nil {
@@ -262,10 +259,7 @@ func (r *nodeReconcile) handleEFLO(ctx context.Context, k8sNode *corev1.Node, no
 		})
 	}
 
-	node.Spec.Pool = &networkv1beta1.PoolSpec{
-		MaxPoolSize: eniConfig.MaxPoolSize,
-		MinPoolSize: eniConfig.MinPoolSize,
-	}
+	node.Spec.Pool = poolSpec(eniConfig, node)
 
 	afterStatus, err := runtime.DefaultUnstructuredConverter.ToUnstructured(node.DeepCopy())
 	if err != nil {
@@ -294,4 +288,21 @@ func (r *nodeReconcile) runERDMADevicePlugin(count int) {
 		dp := deviceplugin.NewENIDevicePlugin(count, deviceplugin.ENITypeERDMA)
 		go dp.Serve()
 	})
+}
+
+// poolSpec keeps the configured watermarks within 0 <= min <= max <= capacity of the
+// flavor, the same way the pool config of the daemon does
+func poolSpec(eniConfig *daemon.Config, node *networkv1beta1.Node) *networkv1beta1.PoolSpec {
+	slots := 0
+	for _, f := range node.Spec.Flavor {
+		if f.NetworkInterfaceTrafficMode == networkv1beta1.NetworkInterfaceTrafficModeStandard {
+			slots += f.Count
+		}
+	}
+	maxPoolSize := max(min(eniConfig.MaxPoolSize, slots*node.Spec.NodeCap.IPv4PerAdapter), 0)
+	minPoolSize := max(min(eniConfig.MinPoolSize, maxPoolSize), 0)
+	return &networkv1beta1.PoolSpec{
+		MaxPoolSize: maxPoolSize,
+		MinPoolSize: minPoolSize,
+	}
 }
